@@ -37,7 +37,7 @@ def exc_json(x):
         return ["raised", ["user", x.e]]
     if isinstance(x, TypeError):
         return ["raised", ["lib", "TypeError"]]
-    raise x
+    return ["raised", ["lib", type(x).__name__]]      # whatever else the library lets out is an observation
 
 
 class Aw:
@@ -146,8 +146,7 @@ def run_gen(ag, log, ops):
             out = gen_outcome(d, r)
         else:
             r = d.drive(ag.aclose(), None)
-            assert r == ("ok", None), r
-            out = ["closed"]
+            out = ["closed"] if r == ("ok", None) else ["close-failed", repr(r)[:80]]
         steps.append([list(log), out])
     return steps
 
